@@ -36,6 +36,7 @@ AXES = [
     ('raw_files', [1, 2]),
     ('raw_format', ['dat', 'npy', 'cbin']),
     ('templates', ['dense', 'sparse']),
+    ('template_dtype', ['float32', 'float64']),
     ('id_dtype', ['int32', 'uint32', 'int64', 'uint16']),
     ('time_dtype', ['uint64', 'int64']),
     ('alf_samples', [True, False]),
